@@ -1296,7 +1296,7 @@ func e2e(engine string, size int, stream bool, limit int64) map[string]any {
 			"usage":   map[string]any{"prompt_tokens": 3, "completion_tokens": 7, "total_tokens": 10}})
 		return stack.Behaviour{Kind: "ok", Status: 200, Headers: [][2]string{{"Content-Type", "application/json"}}, Body: j}
 	})
-	s, err := stack.Start(stack.Opts{Engine: engine, Balancer: "priority", EPs: []stack.EP{{Name: "B", Type: "openai", Priority: 100, Backend: b}},
+	s, err := stack.Start(stack.Opts{Vary: stack.VaryFor("c13.e2e", engine, size, stream, limit), Engine: engine, Balancer: "priority", EPs: []stack.EP{{Name: "B", Type: "openai", Priority: 100, Backend: b}},
 		Mutate: func(cfg *config.Config) {
 			cfg.Translators.Anthropic.Enabled = true
 			cfg.Translators.Anthropic.MaxMessageSize = limit
